@@ -99,7 +99,15 @@ func intInfo(t types.Type) (w int, signed bool, ok bool) {
 }
 
 // scalarSort gives the SMT sort of a scalar-kind Go type.
+// listType: the spec-only type of abstract string lists (sort Lst): nil / snoc.
+var listType = types.NewNamed(types.NewTypeName(0, nil, "list", nil), types.Typ[types.UnsafePointer], nil)
+
+const sLst = "Lst"
+
 func scalarSort(t types.Type) string {
+	if t == types.Type(listType) {
+		return sLst
+	}
 	switch u := t.Underlying().(type) {
 	case *types.Basic:
 		if w, _, ok := intInfo(u); ok {
@@ -276,6 +284,8 @@ func zeroLeaf(sort string) string {
 		return "inil"
 	case sort == sF64:
 		return "f64.zero"
+	case sort == sLst:
+		return "lnil"
 	case strings.HasPrefix(sort, "(_ BitVec "):
 		var w int
 		fmt.Sscanf(sort, "(_ BitVec %d)", &w)
